@@ -127,6 +127,18 @@ class CallGraph:
             for b in bs:
                 self.callers.setdefault(b, set()).add(a)
 
+    def instantiations(self, fid):
+        """concrete types the type parameters of generic function `fid` are given at its local call sites (union over sites)"""
+        gens = _generics_of(self.fx, fid) or []
+        out = set()
+        for caller, sites in self.sites.items():
+            for b, t, callee, is_local in sites:
+                if is_local and callee == fid:
+                    targs = t["callee"].get("targs") or []
+                    if len(targs) == len(gens):
+                        out |= {a.lstrip("&").replace("mut ", "").strip() for a in targs}
+        return out
+
     def closure(self, entries):
         seen = set()
         st = [e for e in entries if e in self.fx.fns]
